@@ -99,12 +99,13 @@ def components(tier):
     code_entry({"family": "repetition", "n": 3}, ["ml", "bp"])
     code_entry({"family": "spc", "k": 4}, ["wagner", "ml"])
     code_entry({"family": "rm", "r": 1, "m": 3}, ["rm_majority", "rm_soft", "inverse"])
-    code_entry({"family": "bch", "mu": 4, "delta": 5, "info": "left"}, ["bm"])
+    code_entry({"family": "bch", "mu": 4, "delta": 5, "info": "left"}, ["bm", "syndrome"])
+    code_entry({"family": "bch", "mu": 4, "delta": 7, "info": "left"}, ["syndrome"])  # redundancy 10: syndromes do not fit 8 bits
     code_entry({"family": "cyclic", "n": 7, "g": 0b1011, "info": "right"}, ["syndrome"])
     code_entry({"family": "systematic", "P": [[1, 1, 0], [0, 1, 1], [1, 0, 1]], "info": [4, 0, 2]}, ["syndrome", "bp"])
     code_entry({"family": "generic", "G": [[1, 1, 0, 1, 0], [0, 1, 1, 1, 1]]}, ["ml"])
     code_entry({"family": "ldpc", "H": [[1, 1, 0, 1, 1, 0, 0], [1, 0, 1, 1, 0, 1, 0], [0, 1, 1, 1, 0, 0, 1]]}, ["bp", "minsum"])
-    code_entry({"family": "golay", "extended": False, "info": "left"}, [])
+    code_entry({"family": "golay", "extended": False, "info": "left"}, ["syndrome"])
     code_entry({"family": "rs", "mu": 3, "delta": 3, "info": "left"}, [])
 
     # polar
@@ -234,7 +235,7 @@ def check_component(ctx, cell, case):
     # other input dtypes of the same values (bit-valued inputs): same answers, input never modified
     if comp["dtype"] == "bits":
         import torch
-        for dt in (torch.int32, torch.int64, torch.float64):
+        for dt in (torch.int32, torch.int64, torch.float64, torch.uint8, torch.int8, torch.int16):
             xt = torch.from_numpy(np.ascontiguousarray(X)).to(dt)
             x0 = xt.clone()
             try:
